@@ -598,6 +598,201 @@ def end_to_end(ctx, seed):
     return problems, info
 
 
+# ------------------------------------------------------------------ real-model scenarios: inconsistent module trees, re-entrant test()
+def all_modules(m):
+    out = [m]
+    for c in m.submodules():
+        out += all_modules(c)
+    return out
+
+
+def scenario_specs():
+    specs = []
+    for entry in ("fit", "test"):
+        for root in ("train", "eval"):
+            for child in (None, "train", "eval"):
+                for attach in (False, True):
+                    specs.append({"entry": entry, "root": root, "child": child, "attach_after_root_call": attach, "reentrant": None})
+    for where in ("epoch_callback", "step_callback", "on_validation_epoch", "on_train_epoch"):
+        specs.append({"entry": "fit", "root": "train", "child": None, "attach_after_root_call": False, "reentrant": where})
+    return specs
+
+
+def run_scenario(spec, seed):
+    """Real Sequential(Linear, BatchNorm1d, ReLU, Dropout, Linear), SGD, DataLoader, CrossEntropyLoss, Evaluator.
+    spec: module flags when fit()/test() is entered (root.train()/eval(), then an individual switch of the BatchNorm and
+    Dropout children, then optionally a fresh Dropout attached: new modules start in training mode) and/or a callback that
+    calls trainer.test() re-entrantly.  Returns (problems, info): every clause judged directly on the real objects."""
+    import io, contextlib
+    impl = _impl()
+    np, sg, nn, optim = impl.np, impl.synapgrad, impl.nn, impl.optim
+    tm = train_mod()
+    from synapgrad.nn.utils.data import DataLoader, DataLoaderCallback
+    impl.reset_modes()
+    rs = np.random.RandomState(seed)
+    np.random.seed(seed)
+    N, NV, F, K, BS = 24, 8, 4, 3, 4
+    X = rs.randn(N + NV + 8, F).astype(np.float32)
+    y = rs.randint(0, K, size=N + NV + 8)
+
+    class T(DataLoaderCallback):
+        def __call__(self, dl, xb, yb):
+            return sg.Tensor(xb), sg.Tensor(yb)
+    tl = DataLoader(X[:N], y[:N], BS, transform=T())
+    vl = DataLoader(X[N:N + NV], y[N:N + NV], BS, transform=T())
+    hl = DataLoader(X[N + NV:], y[N + NV:], BS, transform=T())          # hold-out loader for test()
+    bn, drop = nn.BatchNorm1d(8), nn.Dropout(0.25)
+    model = nn.Sequential(nn.Linear(F, 8), bn, nn.ReLU(), drop, nn.Linear(8, K))
+    # ---- module flags at entry
+    model.train() if spec["root"] == "train" else model.eval()
+    if spec["child"] is not None:
+        for m in (bn, drop):
+            m.train() if spec["child"] == "train" else m.eval()
+    if spec["attach_after_root_call"]:
+        model.register_module("5", nn.Dropout(0.25))                      # a fresh module starts in training mode
+    opt = optim.SGD(model.parameters(), lr=0.05)
+    epochs = 2
+    problems = []
+    state = {"phase": "entry", "steps": 0, "changed": 0, "forwards": 0, "reentrant_calls": 0}
+    marks = {}
+
+    def note(msg):
+        if msg not in problems:
+            problems.append(msg)
+
+    def snap():
+        ps = [p.data.tobytes() for p in model.parameters()]
+        st = [bn.running_mean.data.tobytes(), bn.running_var.data.tobytes(), bn.num_batches_tracked]
+        return ps, st
+    first = model.submodules()[0]
+    orig_forward = first.forward
+
+    def hooked(x):                     # runs at every forward of the model: flags of EVERY module, gradient mode
+        out = orig_forward(x)
+        flags = [bool(m.training) for m in all_modules(model)]
+        ph = state["phase"]
+        state["forwards"] += 1
+        if ph == "train":
+            if not all(flags):
+                note("training forward with %d of %d modules in eval mode" % (flags.count(False), len(flags)))
+            if not impl.grad_mode() or not out.requires_grad:
+                note("training forward with gradient tracking disabled (grad mode %s, output requires_grad %s)" % (impl.grad_mode(), out.requires_grad))
+        elif ph in ("val", "test"):
+            if any(flags):
+                note("%s forward with %d of %d modules in training mode" % ({"val": "validation", "test": "test"}[ph], flags.count(True), len(flags)))
+            if impl.grad_mode() or out.requires_grad:
+                note("%s forward with gradient tracking enabled" % {"val": "validation", "test": "test"}[ph])
+        return out
+    first.forward = hooked
+    real_step = opt.step
+
+    def step():
+        before = snap()[0]
+        real_step()
+        state["steps"] += 1
+        if snap()[0] != before:
+            state["changed"] += 1
+    opt.step = step
+
+    def call_test(loader):
+        prev = state["phase"]
+        state["phase"] = "test"
+        before = snap()
+        g = impl.grad_mode()
+        try:
+            with contextlib.redirect_stdout(io.StringIO()):
+                r = trainer.test(loader)
+        finally:
+            state["phase"] = prev
+        if snap() != before:
+            note("test() changed a parameter or a BatchNorm running statistic")
+        if impl.grad_mode() != g:
+            note("gradient mode after test() is %s, before it was %s" % (impl.grad_mode(), g))
+        return r
+
+    def reentrant(where):
+        if spec["reentrant"] == where:
+            state["reentrant_calls"] += 1
+            scores, labels = call_test(hl)
+            return np.float64((np.argmax(scores, axis=1) == labels).mean())
+        return None
+
+    class Kbar:
+        def __init__(self, *a, **k):
+            state["phase"] = "train"
+
+        def update(self, i, values=None):
+            pass
+
+        def add(self, n, values=None):        # right after the validation of the epoch
+            if "before_val" in marks and snap() != marks.pop("before_val"):
+                note("validation changed a parameter or a BatchNorm running statistic")
+
+    def epoch_cb(yt, yp):
+        v = reentrant("epoch_callback")
+        return [("holdout", v)] if v is not None else []
+
+    def step_cb(yt, yp):
+        if not model.training:                # only from the validation phase: test() leaves the model in eval mode
+            reentrant("step_callback")
+        return []
+
+    def on_val(m, l):
+        reentrant("on_validation_epoch")
+        state["phase"] = "val"
+        marks["before_val"] = snap()
+
+    def on_train(m, l):
+        reentrant("on_train_epoch")
+    old_pk = tm.pkbar
+    tm.pkbar = types.SimpleNamespace(Kbar=Kbar)
+    g_before = impl.grad_mode()
+    try:
+        trainer = tm.Trainer(model, sg)
+        trainer.compile(nn.CrossEntropyLoss(), opt, tm.Evaluator(epoch_callback=epoch_cb, step_callback=step_cb, mode=tm.Evaluator.MULTI_CLASS))
+        if spec["entry"] == "test":
+            p1, t1 = call_test(hl)
+            p2, t2 = call_test(hl)
+            if not np.array_equal(p1, p2):
+                note("two consecutive test() calls give different predictions (max difference %g)" % float(np.abs(p1 - p2).max()))
+            if p1.shape != (len(hl) * BS, K) or list(t1) != list(y[N + NV:N + NV + len(hl) * BS]):
+                note("test() returned predictions of shape %s" % (p1.shape,))
+        else:
+            hist = trainer.fit(tl, epochs, validation_loader=vl, on_train_epoch=on_train, on_validation_epoch=on_val)
+            if impl.grad_mode() != g_before:
+                note("gradient mode after fit is %s, before it was %s" % (impl.grad_mode(), g_before))
+            if state["steps"] != epochs * len(tl):
+                note("%d parameter updates, expected epochs*len(train_loader) = %d" % (state["steps"], epochs * len(tl)))
+            if state["changed"] != state["steps"]:
+                note("only %d of %d optimizer steps changed a parameter" % (state["changed"], state["steps"]))
+            if bn.num_batches_tracked != epochs * len(tl):
+                note("BatchNorm saw %d training-mode forwards, expected %d" % (bn.num_batches_tracked, epochs * len(tl)))
+            want = ["loss", "accuracy"] + (["holdout"] if spec["reentrant"] == "epoch_callback" else [])
+            want = want + ["val_loss"] + ["val_" + k for k in want[1:]]
+            if list(hist.keys()) != want:
+                note("history keys %s, expected %s" % (list(hist.keys()), want))
+            for k in hist:
+                if len(hist[k]) != epochs:
+                    note("history[%r] has %d entries for %d epochs" % (k, len(hist[k]), epochs))
+            if spec["reentrant"] and state["reentrant_calls"] == 0:
+                note("the re-entrant callback never ran")
+            # and afterwards test() still behaves
+            p1, _ = call_test(hl)
+            p2, _ = call_test(hl)
+            if not np.array_equal(p1, p2):
+                note("two consecutive test() calls after fit give different predictions")
+    except Exception as ex:
+        note("run raised %s: %s" % (type(ex).__name__, str(ex)[:120]))
+        if impl.grad_mode() != g_before:
+            note("gradient mode left at %s (before: %s)" % (impl.grad_mode(), g_before))
+    finally:
+        tm.pkbar = old_pk
+        impl.reset_modes()
+    info = {"parameter_updates": state["steps"], "forwards": state["forwards"], "epochs": epochs, "batches": len(tl),
+            "val_batches": len(vl), "modules": len(all_modules(model)), "reentrant_test_calls": state["reentrant_calls"]}
+    return problems, info
+
+
 # ------------------------------------------------------------------ the check
 def gen_cases(ctx):
     rng = ctx.rng
@@ -746,6 +941,19 @@ Eval vm_compute in (mismatches tmodel (pair_eqb obs_eqb (pair_eqb Bool.eqb Bool.
     problems, info = end_to_end(ctx, ctx.seed % 100000)
     ctx.extra["end_to_end"] = dict(info, problems=problems)
     ctx.sample({"end_to_end": info})
+
+    # real-model scenarios: module flags inconsistent with the root at entry; callbacks calling trainer.test() re-entrantly
+    sres = [(sp, ) + run_scenario(sp, ctx.seed % 100000) for sp in scenario_specs()]
+    ctx.extra["real_model_scenarios"] = {"run": len(sres), "failing": [dict(sp, problems=pr) for sp, pr, _ in sres if pr]}
+    ctx.sample({"scenario": sres[-4][0], "info": sres[-4][2]})
+    sfail = [(sp, pr, inf) for sp, pr, inf in sres if pr]
+    if sfail:
+        sp, pr, inf = min(sfail, key=lambda t: (t[0]["reentrant"] is None and t[0]["entry"] == "fit", len(t[1])))
+        ctx.witness("nn.utils.train.Trainer.fit/test", "real-model-scenario", {"scenario": sp, "seed": ctx.seed % 100000},
+                    "every module below the model is in training mode during training forwards and in eval mode (gradients off) during "
+                    "validation/test forwards, whatever the flags were at entry; validation/test change no parameter or running statistic; "
+                    "repeated test() agree; gradient mode restored and later epochs still train, also when test() is called re-entrantly from a callback",
+                    {"problems": pr, "info": inf}, note="%d of %d scenarios fail: %s" % (len(sfail), len(sres), [t[0] for t in sfail][:6]))
     if problems:
         ctx.witness("nn.utils.train.Trainer.fit", "end-to-end", {"run": "Sequential(Linear(4,8), BatchNorm1d(8), ReLU, Dropout(0.25), Linear(8,3)), SGD(lr=0.05), DataLoader(batch 4), 3 epochs, seed %d" % (ctx.seed % 100000)},
                     "epochs*len(loader) parameter updates in training mode; validation/test change nothing; grad mode restored",
@@ -758,6 +966,10 @@ FINISH = dict(rule="the configuration grid is enumerated completely (thorough: i
 def replay(ctx, data):
     if data.get("kind") != "failing-input":
         print(json.dumps(data.get("broken"), indent=1)); return 1
+    if data["class"] == "real-model-scenario":
+        problems, info = run_scenario(data["input"]["scenario"], data["input"]["seed"])
+        print("problems:", problems)
+        return 1 if problems else 0
     if data["class"] == "end-to-end":
         problems, info = end_to_end(ctx, ctx.seed % 100000)
         print("problems:", problems)
